@@ -34,6 +34,9 @@ def run(ck):
     ck.run_rule(u6_unique_resolution)
     from .c12 import q7_uci_query
     ck.run_rule(q7_uci_query)   # the coordinate -> query conversion feeding by_performing_moves
+    # ... and the session position those coordinates are applied to: base and moves of every `position` command (C07's I9)
+    from .c07 import i9_position
+    ck.run_rule(i9_position)
 
 
 def collect_sets(ck, ctx):
